@@ -404,7 +404,27 @@ func (h *handler) disconnect(err error) {
 
 func (h *handler) handleDisconnect(err error) {
 	h.Conn.Close()
+
+	// Leaving the session waits for the session's frame worker, and the frame
+	// worker can be blocked pushing a pending update into this connection's
+	// scheduler queue when the queue is full. Nothing read from the queue is
+	// handled any more at this point: keep consuming it meanwhile.
+	stop := make(chan struct{})
+	stopped := make(chan struct{})
+	go func() {
+		defer close(stopped)
+		for {
+			select {
+			case <-stop:
+				return
+			case <-h.consumer.Messages():
+			}
+		}
+	}()
+
 	h.Handler.HandleDisconnect(err)
+	close(stop)
+	<-stopped
 }
 
 type responseSender struct {
